@@ -83,6 +83,8 @@ var cache = map[int]int{}
 var shared T
 var sharedPtr = &T{}
 var once sync.Once
+var memo sync.Map
+var pool sync.Pool
 var lazy []int
 var readonly = []int{4, 5}
 var initOnly = map[int]int{}
@@ -102,6 +104,9 @@ func ThroughPtr() { sharedPtr.n = 2 }
 func Alias() { t := table; t[1] = 3 }
 func RangeAlias() { for _, p := range []*T{sharedPtr} { _ = p }; q := sharedPtr; q.buf = nil }
 func Lazy() []int { once.Do(func() { lazy = []int{1} }); return lazy }
+func Memo(k int) int { if v, ok := memo.Load(k); ok { return v.(int) }; memo.Store(k, k); return k }
+func PoolPut(b []int) { pool.Put(b) }
+func ReadOnlyLoad(k int) bool { _, ok := memo.Load(k); return ok }
 func (t *T) grow() { t.buf = append(t.buf, 1) }
 func (t *T) deep() { t.grow() }
 func ViaMethod() { shared.grow() }
@@ -124,7 +129,7 @@ var c18SelfWantEsc = []string{"p.MkAddr => p.shared", "p.MkShared => p.sharedPtr
 
 var c18SelfWant = []string{
 	"p.AppendAssign -> p.table", "p.Alias -> p.table", "p.CopyInto -> p.table", "p.Del -> p.cache", "p.Direct -> p.counter",
-	"p.Field -> p.shared", "p.Inc -> p.counter", "p.Index -> p.table", "p.Lazy -> p.lazy", "p.MapStore -> p.cache",
+	"p.Field -> p.shared", "p.Inc -> p.counter", "p.Index -> p.table", "p.Lazy -> p.lazy", "p.Lazy -> p.once", "p.MapStore -> p.cache", "p.Memo -> p.memo", "p.PoolPut -> p.pool",
 	"p.RangeAlias -> p.sharedPtr", "p.ThroughPtr -> p.sharedPtr", "p.ViaArg -> p.table", "p.ViaDeep -> p.sharedPtr",
 	"p.ViaMethod -> p.shared", "p.fn$closure -> p.counter",
 }
